@@ -691,6 +691,16 @@ pub mod events {
         },
         /// an automatic compaction was carried out as a trivial move
         TrivialMove { level: usize, file: u64 },
+        /// the write path switched to a new write-ahead log (the memtable became immutable)
+        Rotated { new_wal: u64 },
+        /// the fields of the manifest record written by the version change that is installed
+        /// next (emitted right before the corresponding `VersionInstalled`)
+        ManifestRecord {
+            wal: Option<u64>,
+            prev_wal: Option<u64>,
+            next_file: Option<u64>,
+            pointers: Vec<(usize, Key)>,
+        },
     }
 
     type Observer = Arc<dyn Fn(&Event) + Send + Sync>;
